@@ -725,6 +725,31 @@ def check_wait_fn(rep, fl, rule="R10.4"):
         wexp = norm(b.expand(wexp))
         okw = okw and wgs and (wexp == wgs[0][2][0] or mentions(wgs[0], wexp))
     rep.check(okw, rule, fl, b, "wait after send", "wg.wait() on the same WaitGroup, only when the marker was enqueued", "wait() does not block on the marker's WaitGroup exactly when the send succeeded")
+    # Ok(()) is a promise: it is returned only behind the barrier (or on a closed cache).  A failed enqueue - the
+    # buffer is full - is reported as an error, never as success: the caller's items are still ahead in that buffer
+    import props_cache
+    fb = facts.flat(b)
+    wt = [(bi, t) for bi, t in fb.calls() if callee_matches(fb.callee_of(t), "WaitGroup::wait") or callee_matches(fb.callee_of(t), "AsyncWaitGroup::wait")]
+    oko = len(wt) == 1
+    bad_ = ""
+    if oko:
+        outs_, at_ = props_cache.count_paths(fb, lambda bi_, t_: "barrier" if t_ is wt[0][1] else None)
+        n_ok = 0
+        for rbi, rsi in fb.defs.get(0, []):
+            e = norm(fb.def_expr(rbi, rsi, True))
+            if not (e[0] == "agg" and str(e[2]).endswith("Result::Ok")):
+                continue
+            for s_ in at_.get((rbi, rsi), set()):
+                n_ok += 1
+                es_ = expand_state(fb, s_, hist=True)
+                closed = any(is_closed_lit(norm(a_)) and v_ for a_, v_ in es_.lits)
+                cnt_ = {k_: v_ for k_, v_ in (s_.user or ()) if not str(k_).startswith("$")}
+                if not closed and cnt_.get("barrier", 0) < 1:
+                    oko = False
+                    bad_ = show_state(s_)
+        oko = oko and n_ok >= 1
+    rep.check(oko, rule, fl, b, "Ok only behind the barrier", "wait() returns Ok(()) only after wg.wait() (or on a closed cache): a marker that could not be enqueued is an error",
+              "wait() can return Ok(()) on an open cache without having waited for its marker (%s): the caller's earlier inserts may still be in the buffer" % bad_[:200])
 
 
 def check_C10(rep, fl):
@@ -748,6 +773,9 @@ def check_C10(rep, fl):
     # "everything accepted before is applied": applying an item cannot fail half-way (a `?` that fires skips the rest
     # of the item while the marker behind it is still released)
     check_no_err_between(rep, fl)
+    # "(or discarded by a concurrent clear())": only by a concurrent one - clear() returns when the clear is over, so
+    # an insert issued after it is not swallowed by that clear's drain or resets
+    props_store.keep_rules(rep, fl, check_clear, {"R11.1"}, rename="R10.2")
 
 
 # ----------------------------------------------------------------------------------------
